@@ -85,7 +85,7 @@ def run(chk, replay=None):
                                                 seed=chk.seed + 7, mutators=MUT_MAP, tag="c10-map-small")
     for variant in ["ii", "ss", "si", "is"]:
         hv = hs if variant == "ii" else hs_small
-        n, wall = adtcheck.replay(chk, exe, hv, "c10-map-" + variant, "FlatMap<%s>" % variant, meta={"variant": variant})
+        n, wall = adtcheck.replay(chk, exe, hv, "c10-map-" + variant, "FlatMap<%s>" % variant, meta={"variant": variant}, isolate=500)
         chk.log("FlatMap<%s>: %d histories replayed (%d mismatching) in %.1fs" % (variant, len(hv), n, wall))
         chk.cov["distinct_nontrivial"] += adtcheck._nontrivial_distinct(hv, MUT_MAP) if not quick else 0
     if quick:
@@ -98,7 +98,7 @@ def run(chk, replay=None):
     chk.count_actions(hs2)
     chk.require_actions(["SetParam", "GetParam", "HasParam", "RemoveParam", "ResetQuery"])
     chk.cov["generation_ParameterizedObject"] = info2
-    n, wall = adtcheck.replay(chk, exe2, hs2, "c10-po", "ParameterizedObject")
+    n, wall = adtcheck.replay(chk, exe2, hs2, "c10-po", "ParameterizedObject", isolate=500)
     chk.log("ParameterizedObject: %d histories replayed (%d mismatching) in %.1fs" % (len(hs2), n, wall))
     chk.cov["distinct_nontrivial"] += adtcheck._nontrivial_distinct(hs2, MUT_PO)
     chk.add_sample({"kind": "history", "object": "ParameterizedObject", "steps": hs2[len(hs2) // 3]})
@@ -108,9 +108,9 @@ def run(chk, replay=None):
     for variant in ["ii", "ss"]:
         acts = [rand_map_actions(rnd, 250) for _ in range(nexec)]
         adtcheck.record_and_validate(chk, exe, SPEC, "OrderedMapTrace", "OrderedMapTrace.cfg", acts, "c10-map-" + variant,
-                                     "FlatMap<%s>" % variant, meta={"variant": variant})
+                                     "FlatMap<%s>" % variant, meta={"variant": variant}, isolate=1)
     acts = [rand_po_actions(rnd, 250) for _ in range(nexec)]
-    adtcheck.record_and_validate(chk, exe2, SPEC, "ParamObjectTrace", "ParamObjectTrace.cfg", acts, "c10-po", "ParameterizedObject")
+    adtcheck.record_and_validate(chk, exe2, SPEC, "ParamObjectTrace", "ParamObjectTrace.cfg", acts, "c10-po", "ParameterizedObject", isolate=1)
     chk.add_sample({"kind": "recorded-trace-prefix", "object": "ParameterizedObject", "actions": acts[0][:6]})
     chk.cov["rule"] = ("histories = paths of TLC's complete state graph of the bounded instance (all paths up to the budgeted length, "
                        "one shortest path per transition, seeded random walks); non-trivial = contains a state-changing action; "
